@@ -1,5 +1,6 @@
 import Ivg.Lemmas.LoopC01
 import Ivg.Lemmas.Header
+import Ivg.Lemmas.Converse
 import Ivg.Gen.Tie.Dc1
 import Ivg.Gen.Tie.DefaultViewBox
 import Ivg.Gen.Tie.DrawOps
@@ -17,7 +18,7 @@ increment flags, arc flags and colours unchanged.  The round-trip functions are 
 (`Ivg/Lemmas/Codec.lean`: exact when a short form applies, else `trunc30`, the 30-bit float).
 -/
 namespace Ivg.Props.C01
-open Ivg Num Enc Dec Codec RoundTrip EncoderInv Header LoopC01
+open Ivg Num Enc Dec Codec RoundTrip EncoderInv Header LoopC01 DecoderProto Converse
 
 /-- **Forward direction, full strength on structure.**  For every viewBox that is valid after the
     coordinate round trip (or is the default), every premultiplied suggested palette, either resolution
@@ -48,6 +49,26 @@ theorem encode_decode_reused (e₀ : Encoder) (vb : ViewBox F32) (pal : Palette)
     ∃ bs, e.bytes.2 = .ok bs ∧ Dec.decode [] bs = (.reset (rtViewBox vb) pal :: p.map (Q hi), none) :=
   encode_decode vb pal hi p endPath hv hp hproto
 
+/-- **Converse direction.**  Every stream the decoder accepts delivers `Reset vb pal` followed by a
+    protocol-respecting program `p` (possibly ending inside a path); feeding these calls to an Encoder at either
+    resolution gives no error, and the re-encoded stream is accepted and decodes to the same operations up to
+    the same quantisation `Q hi` (and the viewBox up to the coordinate round trip, which `reencode_coord`
+    shows is numerically the identity on decoder outputs).  Hence transcoding never fails. -/
+theorem decode_encode (bs : Bytes) (cs : List (Call F32)) (hi : Bool) (h : Dec.decode [] bs = (cs, none)) :
+    ∃ vb pal p, cs = .reset vb pal :: p ∧
+      ∃ bs', (({ (({} : Encoder).step (.reset vb pal)) with hiRes := hi } : Encoder).run p).bytes.2 = .ok bs' ∧
+        Dec.decode [] bs' = (.reset (rtViewBox vb) pal :: p.map (Q hi), none) := by
+  obtain ⟨vb, pal, p, endPath, hcs, hproto, hpal, hvb⟩ := decode_accepted_shape bs cs h
+  refine ⟨vb, pal, p, hcs, ?_⟩
+  exact encode_decode vb pal hi p endPath (vbValid_of_accepted hvb) hpal hproto
+
+/-- repeated transcoding never fails: the output of one transcoding is again accepted, so the
+    statement applies to it in turn -/
+theorem transcode_accepted (bs : Bytes) (cs : List (Call F32)) (hi : Bool) (h : Dec.decode [] bs = (cs, none)) :
+    ∃ bs' cs', (Dec.decode [] bs') = (cs', none) ∧ cs'.length = cs.length := by
+  obtain ⟨vb, pal, p, hcs, bs', _, hdec⟩ := decode_encode bs cs hi h
+  exact ⟨bs', _, hdec, by simp [hcs]⟩
+
 /-- non-vacuity: a two-path program with a run, an arc, a blend and an incrementing register write -/
 example : Proto false
     [.setCSel 70, .setCReg 0 true (Color.blendColor 40 0x7f 0x80), .setNReg 3 false ⟨0x3f000000⟩,
@@ -61,11 +82,9 @@ example : VBValid ⟨⟨0xc1c00000⟩, ⟨0xc1c00000⟩, ⟨0x41c00000⟩, ⟨0x
 
 /-!
 ## Not proved here (documented gaps)
-* The converse ("every stream the decoder accepts can be fed to an Encoder …"): needs the lemma that the
-  calls the decoder delivers satisfy `Proto` with `StylingOK` (ADJ ≤ 6 by the opcode ranges, colours `WF`
-  by `decodeColor1_WF`) — checked on every run by the harness monitor `C01.converse-*`.
-* `VBValid` is stated on the round-tripped viewBox; that a finite valid viewBox stays valid needs
-  monotonicity of `rtCoord` (not proved).
+* In the forward direction `VBValid` is stated on the round-tripped viewBox; that an arbitrary finite valid
+  viewBox stays valid under the 30-bit truncation needs monotonicity of `rtCoord` (not proved).  In the
+  converse direction this is proved (`vbValid_of_accepted`): decoder outputs re-encode to numerically equal values.
 * "never drifts": idempotence of `Q hi` up to float `==` for coordinates and reals is in C08
   (`roundtrip_idempotent`); for `quantize` it is monitored only.
 * Per-path change of resolution (`setHiRes` between paths) is covered by the correspondence runs only.
@@ -73,5 +92,7 @@ example : VBValid ⟨⟨0xc1c00000⟩, ⟨0xc1c00000⟩, ⟨0x41c00000⟩, ⟨0x
 
 end Ivg.Props.C01
 #obligations C01 [Ivg.Props.C01.encode_decode, Ivg.Props.C01.encode_decode_reused,
+  Ivg.Props.C01.decode_encode, Ivg.Props.C01.transcode_accepted, Ivg.DecoderProto.decode_accepted_shape,
+  Ivg.Converse.vbValid_of_accepted,
   Ivg.EncoderInv.inv_run, Ivg.EncoderInv.chunks_dec, Ivg.Header.header_decodes, Ivg.LoopC01.loop_fuel,
   Ivg.Gen.Tie.drawOps_tie, Ivg.Gen.Tie.magic_tie, Ivg.Gen.Tie.dc1Table_tie, Ivg.Gen.Tie.defaultViewBox_tie]
